@@ -63,6 +63,7 @@ class C05(Machine):
                    "load_of_cut_file_raised", "format_chain",
                    "sparse_with_stored_zeros",
                    "source_perturbed_after_derivation",
+                   "returned_arrays_edited_by_caller",
                    "igraph_edges_unsorted")
     faults_na = ("message_loss", "message_duplication", "partition",
                  "process_crash", "clock_skew", "bit_flips_after_save")
@@ -249,10 +250,17 @@ class C05(Machine):
                     # the new object must not share state with its source:
                     # scale the source's weights in place, through the
                     # public property, and look at the new object again
-                    out = C.call(self._scale_weights, net)
+                    out = C.call(self._scale_weights, net, dict(m.attrs))
                     if not isinstance(out, C.Raised):
                         R.probe("source_perturbed_after_derivation")
                         self._compare(R, new, m, tag + "+source-changed",
+                                      exact=exact)
+                if not R.violations and step % 2 == 0:
+                    # arrays handed out by the getters belong to the caller
+                    out = C.call(self._scribble, new, sorted(m.attrs))
+                    if not isinstance(out, C.Raised):
+                        R.probe("returned_arrays_edited_by_caller")
+                        self._compare(R, new, m, tag + "+result-edited",
                                       exact=exact)
                 # the chain continues from the new object only if it is
                 # faithful (otherwise later steps would blame the wrong op)
@@ -265,10 +273,23 @@ class C05(Machine):
         return R.as_dict()
 
     @staticmethod
-    def _scale_weights(net):
+    def _scale_weights(net, attrs=None):
         w = net.node_weights
         w *= 2.0                      # in place on the array the getter gave
         net.node_weights = w
+        # ... and its link attributes, through the public setter (a shared
+        # embedded graph would carry them over)
+        for name, W in sorted((attrs or {}).items()):
+            net.set_link_attribute(name, 3.0 * W)
+
+    @staticmethod
+    def _scribble(net, names):
+        """The caller works in place on what the getters returned."""
+        a = net.adjacency
+        a += 7
+        for name in names:
+            W = net.link_attribute(name)
+            W *= -1.5
 
     @staticmethod
     def _last_linked(A):
